@@ -198,7 +198,22 @@ def l2_chain_sweep_events(run, rng, quick):
         name = sys._getframe(1).f_code.co_name
         rec.append((name, loc.get("imps"), loc.get("cidx0"), loc.get("cidx1"), loc.get("cidx2"),
                     bool(loc["mps"].to_right) if "mps" in loc else None, complex(dt), int(np.size(vstart))))
-        return orig(afunc, dt, vstart, *a, **k)
+        res = orig(afunc, dt, vstart, *a, **k)
+        # contract of Props/C09Conserve (`local_step_norm`, `local_step_energy`): the effective operator is Hermitian,
+        # and the local propagation by exp(-i tau K) keeps the centre tensor's norm and Rayleigh form
+        if name == "_evolve_tdvp_ps":
+            v0 = np.asarray(vstart).ravel()
+            v1 = np.asarray(res[0]).ravel()
+            x = prng.normal(size=v0.size) + 1j * prng.normal(size=v0.size)
+            y = prng.normal(size=v0.size) + 1j * prng.normal(size=v0.size)
+            ax, ay = np.asarray(afunc(x)).ravel(), np.asarray(afunc(y)).ravel()
+            herm = abs(np.vdot(x, ay) - np.conj(np.vdot(y, ax))) / (np.linalg.norm(x) * np.linalg.norm(ay) + 1e-300)
+            cons.append(dict(herm=float(herm), n0=float(np.vdot(v0, v0).real), n1=float(np.vdot(v1, v1).real),
+                             e0=float(np.vdot(v0, np.asarray(afunc(v0)).ravel()).real),
+                             e1=float(np.vdot(v1, np.asarray(afunc(v1)).ravel()).real), scale=float(np.linalg.norm(ax) / np.linalg.norm(x))))
+        return res
+    cons = []
+    prng = np.random.default_rng(int(rng.integers(2 ** 31)))
     mpsmod.expm_krylov = wrapped
     reqs, meta = [], []
     try:
@@ -215,11 +230,40 @@ def l2_chain_sweep_events(run, rng, quick):
                 mps.evolve_config = EvolveConfig(method)
                 tau = 0.02 if rng.random() < 0.5 else -0.03j
                 del rec[:]
+                del cons[:]
+                e_init = float(np.real(mps.expectation(mpo)))
+                n_init = float(np.real(mps.conj().dot(mps)))
                 try:
-                    mps.evolve(mpo, tau)
+                    mps_new = mps.evolve(mpo, tau)
                 except Exception as e:  # noqa
                     run.count("chain-sweep-raised:" + type(e).__name__)
                     continue
+                if method == EvolveMethod.tdvp_ps:
+                    info = dict(nsite=n, tau=str(tau), bond_dims=[int(b) for b in mps.bond_dims], nlocal=len(cons),
+                                theorem="RenoVerif.Conserve.sweep_conserves / local_step_norm / local_step_energy")
+                    worst_h = max((c["herm"] for c in cons), default=0.0)
+                    run.count("conserve:hermiticity-checked", len(cons))
+                    if worst_h > 1e-9:
+                        run.violation("corr:tdvp_ps:effective-operator-not-hermitian",
+                                      dict(info, correspondence="hypothesis K = P^H H P Hermitian of Props/C09Conserve", worst=worst_h), no_input=True)
+                    if not np.iscomplex(tau):
+                        esc = max(abs(e_init), max((c["scale"] for c in cons), default=1.0) * n_init, 1e-12)
+                        # every local step keeps norm and Rayleigh form; consecutive steps re-express the same state
+                        seq_n = [n_init] + [v for c in cons for v in (c["n0"], c["n1"])]
+                        seq_e = [e_init] + [v for c in cons for v in (c["e0"], c["e1"])]
+                        dn = max(abs(v - n_init) for v in seq_n) / n_init
+                        de = max(abs(v - e_init) for v in seq_e) / esc
+                        e_fin = float(np.real(mps_new.expectation(mpo)))
+                        n_fin = float(np.real(mps_new.conj().dot(mps_new)))
+                        dn = max(dn, abs(n_fin - n_init) / n_init)
+                        de = max(de, abs(e_fin - e_init) / esc)
+                        run.count("conserve:real-time-sweeps")
+                        if dn > 1e-8 or de > 1e-8:
+                            k = next((i for i, (a, b) in enumerate(zip(seq_e, seq_n)) if abs(a - e_init) / esc > 1e-8 or abs(b - n_init) / n_init > 1e-8), None)
+                            run.violation("corr:tdvp_ps:local-step-conservation",
+                                          dict(info, correspondence="conclusion of sweep_conserves on the recorded local propagations of the real sweep",
+                                               norm_drift=dn, energy_drift=de, first_bad_entry=k,
+                                               energies=seq_e[:40], norms=seq_n[:40], final=[e_fin, n_fin]), no_input=True)
                 events, steps = [], set()
                 for (fn, imps, c0, c1, c2, to_right, dt, size) in rec:
                     ratio = dt / (-1j * tau)          # +1/2 forward local step, -1/2 backward local step
@@ -361,7 +405,7 @@ def vmf_generic_gauge(run, rng, quick):
 
 if __name__ == "__main__":
     common.main_wrapper(lambda: generic_check.run_check(
-        "C09", "other", ["RenoVerif/Props/C09.lean", "RenoVerif/Props/C12.lean"], [l2_rk_poly, l2_taylor_poly, l2_controller, l2_chain_sweep_events, large_step_ps, vmf_generic_gauge],
+        "C09", "other", ["RenoVerif/Props/C09.lean", "RenoVerif/Props/C12.lean", "RenoVerif/Props/C09Conserve.lean"], [l2_rk_poly, l2_taylor_poly, l2_controller, l2_chain_sweep_events, large_step_ps, vmf_generic_gauge],
         ["error orders of TDVP/P&C schemes, Lanczos/RK45 local solvers, adaptive step-size termination are numerical (measured by slopes)",
          "projector-splitting norm/energy conservation is measured, its algebraic reason (unitary local steps + C04 pushes) is not assembled into one Lean theorem"],
         "ten tableaux x one fixed step of the real general RK scheme at full bond dimension vs the model polynomial",
